@@ -283,6 +283,15 @@ def gen_dro_sep(rng, cfg):
         sx = add({'op': 'dvar', 'id': 'x', 'm': 'm', 'shape': [K]}, [s_m])
         xs = [['i', ['v', 'x'], k] for k in range(K)]
         s_x = [sx] * K
+    # two affinely adaptive decisions outside the objective, tied later by an equality with its own ambiguity set; declared
+    # (and adapted) here, ahead of every expression
+    tied = cone != 'exp' and rng.random() < cfg.get('p_tied_rules', 0.25)
+    s_tie, s_tiead = [], []
+    if tied:
+        s_tie = [add({'op': 'dvar', 'id': 'e%d_' % j, 'm': 'm'}, [s_m]) for j in (1, 2)]
+        zn0 = sorted(zs)[0]
+        s_tiead = [add({'op': 'adapt', 'tgt': ['v', 'e%d_' % j], 'to': ['i', ['v', zn0], [0, 1]]}, [s_tie[j - 1], s_z[zn0]], role='adapt')
+                   for j in (1, 2)]
     # event-wise decisions: x_k takes one value per declared event (only with scalar decisions, robust rows)
     ew_mode = scalar_x and S >= 2 and rng.random() < cfg.get('p_eventwise', 0.3)
     ew_part = {}
@@ -560,6 +569,17 @@ def gen_dro_sep(rng, cfg):
         add({'op': 'cons', 'id': 'bu2', 'e': ['>=', ['v', 'u'], ['c', 0.0]]}, [s_u], late=True, role='bound')
         add({'op': 'st', 'm': 'm', 'ids': ['bu1', 'bu2']}, [steps[-2]['sid'], steps[-1]['sid']] + s_amb, late=True,
             role='bound', anchor=s_u)
+    if tied:
+        # the EQUALITY carries its own ambiguity set (the model may have no default set at all): e1(z) + e2(z) == 1 for all z,
+        # both bounded; feasible with constant rules
+        an_t = rng.choice(sorted(ambs))
+        sa_t = s_amb['FG'.index(an_t)]
+        tie = [('tq', ['==', ['+', ['v', 'e1_'], ['v', 'e2_']], ['c', 1.0]]), ('tl', ['>=', ['v', 'e1_'], ['c', -20.0]]),
+               ('tu', ['<=', ['v', 'e1_'], ['c', 20.0]])]
+        for cid, ce_ in tie:
+            sc_ = add({'op': 'cons', 'id': cid, 'e': ce_}, s_tie + s_tiead, role='bound')
+            sf_ = add({'op': 'forall', 'id': cid, 'amb': an_t}, [sc_, sa_t], role='set')
+            add({'op': 'st', 'm': 'm', 'ids': [cid]}, [sf_] + s_amb, role='bound')
     # dro: every expression is built after every decision variable exists (otherwise finding K6), except in the rare
     # hazard draw where exactly that order dependence is exercised
     if not hazard_late_dvar:
